@@ -32,14 +32,14 @@ JUDGE_CFG = "INIT Init\nNEXT Next\nINVARIANT Judge\nCHECK_DEADLOCK FALSE\n"
 def static_variants(idx):
     """The conversions performed on a fresh grid of one case (every one on its own fresh grid)."""
     out = [{"act": "Am"}]
-    projs = [("none", True), ("pc180", True), ("rob", True), ("pc180", False), ("rob", False)]
+    projs = [("none", True), ("rob", True), ("rob180", True), ("rob180", False), ("pc180", True), ("pc180", False)]
     for pe in X.PE:
         for eng in ("sp", "gp"):
             for pn, pj in projs:
                 # grid-only conversions are a sub-path of the data conversions; do them on a share of the cases
                 act = "ToGdf" if (idx + len(out)) % 5 == 0 else "DataToGdf"
                 out.append({"act": act, "pe": pe, "proj": pn, "eng": eng, "project": pj, "cache": True, "override": False, "var": "a"})
-        for pn in ("none", "pc180", "rob"):
+        for pn in ("none", "rob", "rob180", "pc180"):
             act = "ToPoly" if (idx + len(out)) % 5 == 0 else "DataToPoly"
             out.append({"act": act, "pe": pe, "proj": pn, "eng": "-", "project": True, "cache": True, "override": False, "var": "a", "ri": True})
             out.append({"act": "ToLine", "pe": pe, "proj": pn, "eng": "-", "project": True, "cache": True, "override": False})
@@ -86,7 +86,7 @@ def record_static(case):
             obj, owner = X.call(g, das, ev)
         except Exception as e:  # noqa
             if not refused(ev):
-                errs.append({"id": rid, "ev": ev, "error": "%s: %s" % (type(e).__name__, str(e)[:200])})
+                errs.append({"id": rid, "ev": ev, "error": "%s: %s" % (type(e).__name__, str(e)[:200]), "etype": type(e).__name__})
             continue
         kind = X.kind_of(ev["act"])
         k = X.seam_k(ev["proj"])
@@ -109,6 +109,11 @@ def record_static(case):
         rec["rows"] = [[T.match(p, system) for p in r] for r in rows]
         if holes:
             rec["rows"].append([[[-2, 0]]])
+        if kind != "gdf" and not system.startswith("ll") and any(v[0] == -2 for r in rec["rows"] for p in r for v in p):
+            # diagnosis only: the same coordinates read as seam-shifted longitudes / latitudes
+            rec["rows_ll"] = [[T.match(p, T.system(ev["proj"], False)) for p in r] for r in rows]
+        if kind == "line":
+            rec["closed"] = [bool(len(r[0]) >= 2 and (r[0][0] == r[0][-1]).all()) for r in rows]
         if crs_ok is not None:
             rec["crs_ok"] = crs_ok
         if ev["act"].startswith("Data"):
@@ -128,14 +133,19 @@ def record_static(case):
             "sgn": T.sgn}
 
 
-def sig_of_static(rid, clause, facts=None):
-    parts = rid.split("|")
-    tag = parts[-1].split("/")
+def sig_of_static(rid, clause, facts=None, etype=None):
+    """Signature of a failing conversion: the call (input description) plus the shape of the failure
+    as decided by JudgePoly (facts.pattern)."""
+    tag = rid.split("|")[-1].split("/")
     s = {"part": "static", "clause": clause, "act": tag[0]}
     if len(tag) >= 5:
-        s.update({"pe": tag[1], "proj": tag[2], "eng": tag[3], "project": tag[4] == "p1"})
+        s.update({"kind": {"ToGdf": "gdf", "DataToGdf": "gdf", "ToPoly": "poly", "DataToPoly": "poly", "ToLine": "line"}[tag[0]],
+                  "pe": tag[1], "proj": tag[2], "projected": tag[2] != "none" and tag[4] == "p1"})
     if facts:
         s["crossers"] = bool(facts.get("crossers", 0))
+        s["pattern"] = facts.get("pattern", "none")
+    if etype:
+        s["error"] = etype
     return s
 
 
@@ -243,8 +253,14 @@ def part_static(ctx, rng):
               "observed": {k: rec[k] for k in ("rows", "data", "owner", "am", "crs_ok") if k in rec}}
         for clause in sorted(cl):
             ctx.violation(rid, clause, detail={"failed": sorted(cl), "facts": facts}, replay=rp, sig=sig_of_static(rid, clause, facts))
+    case_of = {c["id"]: c for c in cases}
     for e in errs:
-        ctx.violation(e["id"], "Raises", detail=e["error"], replay=e, sig=sig_of_static(e["id"], "Raises"))
+        sg = sig_of_static(e["id"], "Raises", etype=e.get("etype"))
+        c = case_of[e["id"].rsplit("|", 1)[0]]
+        gk = gen[(c["mi"], X.seam_k(e["ev"].get("proj", "none")), c["sv"])]
+        # decided by the specification: a face that does NOT cross the seam and whose corners lie on one parallel
+        sg["flat_noncrossing_face"] = bool(set(gk["flat"]) - set(gk["cross"]))
+        ctx.violation(e["id"], "Raises", detail=e["error"], replay=e, sig=sg)
     # numeric clause (Python, as the property's area statement is numeric): pieces cover the face
     n_area = 0
     for c, o in zip(cases, res):
@@ -259,22 +275,24 @@ def part_static(ctx, rng):
             if gsv is None:
                 continue
             tab = o["tab"][a["system"]]
-            exp = [X.expected_planar_area(f, tab, fi in gsv["cross"], fi in gsv["polein"]) for fi, f in enumerate(e["faces"])]
-            if any(x is None for x in exp):
+            exps = [[X.expected_planar_area(f, e["nodes"], tab, k, fi in gsv["polein"], gc) for fi, f in enumerate(e["faces"])] for gc in (True, False)]
+            if any(x is None for ex in exps for x in ex):
                 continue
             pa = a["piece_area"]
-            if a["kind"] == "gdf" and len(pa) == len(exp):
+            if a["kind"] == "gdf" and len(pa) == len(exps[0]):
                 got = [sum(r) for r in pa]
-            elif a["kind"] == "poly" and a["owner"] and len(a["owner"]) == len(pa) and all(0 <= w < len(exp) for w in a["owner"]):
-                got = [0.0] * len(exp)
+                exps = exps
+            elif a["kind"] == "poly" and a["owner"] and len(a["owner"]) == len(pa) and all(0 <= w < len(exps[0]) for w in a["owner"]):
+                got = [0.0] * len(exps[0])
                 for w, r in zip(a["owner"], pa):
                     got[w] += sum(r)
             else:
-                got, exp = [sum(sum(r) for r in pa)], [sum(exp)]
+                got, exps = [sum(sum(r) for r in pa)], [[sum(ex)] for ex in exps]
             n_area += 1
-            bad = [i for i, (x, y) in enumerate(zip(got, exp)) if abs(x - y) > 1e-5 * max(abs(y), 1.0) + 1e-4]
+            # either convention for the cut points is a legitimate reading of "cover the same face"
+            bad = [i for i in range(len(got)) if all(abs(got[i] - ex[i]) > 2e-5 * max(abs(ex[i]), 1.0) + 1e-3 for ex in exps)]
             if bad:
-                ctx.violation(a["id"], "SplitAreaCovers", detail={"faces": bad[:5], "got": [got[i] for i in bad[:5]], "expected": [exp[i] for i in bad[:5]]},
+                ctx.violation(a["id"], "SplitAreaCovers", detail={"faces": bad[:5], "got": [got[i] for i in bad[:5]], "expected": [[ex[i] for ex in exps] for i in bad[:5]]},
                               replay={"case": a["id"], "nodes": e["nodes"], "faces": e["faces"]}, sig=sig_of_static(a["id"], "SplitAreaCovers"))
     ctx.note("static", {"meshes": len(ents), "cases": len(cases), "records": len(recs), "with_crossers": n_cross, "without_crossers": n_nocross,
                         "skipped_by_spec": skipped, "unjudged_records": len(unjudged), "area_checks": n_area,
@@ -284,8 +302,217 @@ def part_static(ctx, rng):
     return ents, gen, cases
 
 
+# ============================================================================ part 2: histories
+def pc_cfg(mech, proj, eng, projects, flags, kinds, maxlen, edit, keep, emitfrom, invs, pe=None, vars_=("ta", "tb")):
+    S = lambda xs: "{%s}" % ", ".join('"%s"' % x for x in xs)  # noqa: E731
+    return (
+        "SPECIFICATION Spec\nCONSTANTS\n PE = %s\n PROJ = %s\n ENG = %s\n PROJECTS = {%s}\n FLAGS <- %s\n VARS = %s\n KINDS = %s\n"
+        " MaxLen = %d\n Mech <- %s\n AllowEdit = %s\n KeepHist = %s\n EmitFrom = %d\n%sCHECK_DEADLOCK FALSE\n"
+        % (S(pe or X.PE), S(proj), S(eng), ", ".join(projects), flags, S(vars_), S(kinds), maxlen, mech,
+           "TRUE" if edit else "FALSE", "TRUE" if keep else "FALSE", emitfrom, "".join("INVARIANT %s\n" % i for i in invs))
+    )
+
+
+def gen_histories(ctx, what, **kw):
+    """Histories emitted by TLC from PlotCache(MechObserved): list of (events, predicted bad sets per step)."""
+    sim = kw.pop("simulate", None)
+    depth = kw.pop("depth", None)
+    cfg = pc_cfg("MechObserved", keep=True, invs=["TypeOK", "Emit"], **kw)
+    extra = {}
+    if sim:
+        extra = {"simulate": sim, "depth": depth, "seed": ctx.seed + 7}
+    r = ctx.tlc_ok("PlotCache", cfg, what=what, workers=8, timeout=1500, count=not sim, **extra)
+    E = X.tagged_prints(r.out, ("E",))
+    if len(E) != 1:
+        raise Machinery("PlotCache emitted %d alphabets" % len(E))
+    alpha = [dict(e) for e in E[0][1]]
+    out = []
+    for h in X.tagged_prints(r.out, ("H",)):
+        evs = []
+        for i in h[1]:
+            if i > 0:
+                evs.append(alpha[i - 1])
+            else:
+                evs.append({"act": "Edit", "pe": "-", "proj": "-", "eng": "-", "project": True, "cache": False, "override": False, "var": "-", "target": -i})
+        out.append((evs, [sorted(b) for b in h[2]]))
+    return out, len(alpha)
+
+
+def hist_key(evs):
+    return "/".join(
+        "E%d" % e["target"] if e["act"] == "Edit" else
+        "%s:%s:%s:%s:%s%s%s:%s" % (e["act"], e["pe"], e["proj"], e["eng"], "P" if e["project"] else "p", "C" if e["cache"] else "c", "O" if e["override"] else "o", e["var"])
+        for e in evs)
+
+
+def part_history(ctx, rng, ents, gen, cases):
+    thorough = ctx.tier == "thorough"
+    # -- 1. the lazy design can meet the property: PlotCache(MechIntended) satisfies the clauses
+    full = dict(proj=["none", "rob", "rob180"], eng=["sp", "gp"], projects=["TRUE", "FALSE"], flags="FlagsAll", kinds=["gdf", "poly", "line"])
+    ctx.tlc_ok("PlotCache", pc_cfg("MechIntended", maxlen=2, edit=True, keep=False, emitfrom=9, invs=["TypeOK", "NoBad", "EntryCoherent", "NoAliasing"], **full),
+               what="PlotCache(MechIntended): clauses hold on all histories of length <= 2 over the full argument domains (with caller edits)", workers=8, timeout=1500)
+    small = dict(proj=["none", "rob180"], eng=["sp", "gp"], projects=["TRUE", "FALSE"], flags="FlagsThree", kinds=["gdf", "poly", "line"])
+    ctx.tlc_ok("PlotCache", pc_cfg("MechIntended", maxlen=4 if thorough else 3, edit=True, keep=False, emitfrom=9, invs=["TypeOK", "NoBad", "EntryCoherent", "NoAliasing"], **small),
+               what="PlotCache(MechIntended): clauses hold on all histories of length <= %d (seam-moving projection, both engines)" % (4 if thorough else 3), workers=8, timeout=1500)
+    # the machine distinguishes the mechanisms: the observed one and the pre-5278ad57 line cache break the clauses
+    for mech, kinds in (("MechObserved", ["gdf", "poly", "line"]), ("MechLinesOld", ["line"])):
+        r = ctx.tlc("PlotCache", pc_cfg(mech, maxlen=3, edit=(mech == "MechObserved"), keep=False, emitfrom=9, invs=["NoBad"],
+                                        proj=["none", "rob180"], eng=["sp"], projects=["TRUE"], flags="FlagsTwo", kinds=kinds),
+                    what="PlotCache(%s) violates NoBad (expected counterexample)" % mech, workers=4, timeout=600, count=False)
+        if r.violated != "NoBad":
+            raise Machinery("PlotCache(%s) was expected to violate NoBad, got %s" % (mech, r.violated))
+    # -- 2. histories generated by TLC from the observed mechanism, with the predicted failures
+    hists = {}
+
+    def add(hs, cap_clean=None):
+        clean = []
+        for evs, bads in hs:
+            k = hist_key(evs)
+            if k in hists:
+                continue
+            if cap_clean is not None and not any(bads[-1:]):
+                clean.append((k, evs, bads))
+            else:
+                hists[k] = (evs, bads)
+        if clean:
+            if cap_clean < len(clean):
+                clean = rng.sample(clean, cap_clean)
+            for k, evs, bads in clean:
+                hists[k] = (evs, bads)
+
+    n_alpha = {}
+    if thorough:
+        hs, n_alpha["pairs"] = gen_histories(ctx, "all histories of length <= 2, three families, full argument domains", maxlen=2, edit=True, emitfrom=1,
+                                             proj=["none", "rob", "rob180"], eng=["sp", "gp"], projects=["TRUE", "FALSE"], flags="FlagsThree", kinds=["gdf", "poly", "line"])
+        add(hs)
+        hs, n_alpha["gdf3"] = gen_histories(ctx, "GeoDataFrame family, all histories of length 3", maxlen=3, edit=True, emitfrom=3,
+                                            proj=["none", "rob180"], eng=["sp", "gp"], projects=["TRUE"], flags="FlagsTwo", kinds=["gdf"])
+        add(hs, cap_clean=110000)
+        hs, n_alpha["gdf3p"] = gen_histories(ctx, "GeoDataFrame family with project=False, one engine, length 3", maxlen=3, edit=False, emitfrom=3,
+                                             proj=["rob", "rob180"], eng=["sp"], projects=["TRUE", "FALSE"], flags="FlagsTwo", kinds=["gdf"], pe=["exclude", "ignore"], vars_=("ta",))
+        add(hs, cap_clean=20000)
+        hs, n_alpha["poly3"] = gen_histories(ctx, "PolyCollection family, all histories of length 3", maxlen=3, edit=True, emitfrom=3,
+                                             proj=["none", "rob180"], eng=["sp"], projects=["TRUE"], flags="FlagsThree", kinds=["poly"])
+        add(hs, cap_clean=60000)
+        hs, n_alpha["line3"] = gen_histories(ctx, "LineCollection family, all histories of length 3", maxlen=3, edit=True, emitfrom=3,
+                                             proj=["none", "rob", "rob180"], eng=["sp"], projects=["TRUE"], flags="FlagsAll", kinds=["line"])
+        add(hs)
+        nsim = 4000
+    else:
+        hs, n_alpha["pairs"] = gen_histories(ctx, "all histories of length <= 2, three families", maxlen=2, edit=True, emitfrom=1,
+                                             proj=["none", "rob180"], eng=["sp", "gp"], projects=["TRUE"], flags="FlagsTwo", kinds=["gdf", "poly", "line"])
+        add(hs)
+        hs, n_alpha["pairs_p"] = gen_histories(ctx, "GeoDataFrame pairs with project=False", maxlen=2, edit=False, emitfrom=2,
+                                               proj=["rob180"], eng=["sp"], projects=["TRUE", "FALSE"], flags="FlagsTwo", kinds=["gdf"], pe=["exclude", "ignore"], vars_=("ta",))
+        add(hs)
+        hs, n_alpha["gdf3"] = gen_histories(ctx, "GeoDataFrame family, histories of length 3 (one engine)", maxlen=3, edit=True, emitfrom=3,
+                                            proj=["none", "rob180"], eng=["sp"], projects=["TRUE"], flags="FlagsTwo", kinds=["gdf"])
+        add(hs, cap_clean=1500)
+        hs, n_alpha["poly3"] = gen_histories(ctx, "PolyCollection family, histories of length 3", maxlen=3, edit=True, emitfrom=3,
+                                             proj=["none", "rob180"], eng=["sp"], projects=["TRUE"], flags="FlagsTwo", kinds=["poly"])
+        add(hs, cap_clean=1500)
+        hs, n_alpha["line3"] = gen_histories(ctx, "LineCollection family, all histories of length 3", maxlen=3, edit=True, emitfrom=3,
+                                             proj=["none", "rob180"], eng=["sp"], projects=["TRUE"], flags="FlagsThree", kinds=["line"])
+        add(hs)
+        nsim = 400
+    hs, _ = gen_histories(ctx, "random behaviours of length 5 (-simulate)", maxlen=5, edit=True, emitfrom=5, simulate="num=%d" % nsim, depth=6,
+                          proj=["none", "rob", "rob180"], eng=["sp", "gp"], projects=["TRUE", "FALSE"], flags="FlagsAll", kinds=["gdf", "poly", "line"])
+    add(hs)
+    if not thorough:
+        # keep the quick tier inside its budget: all predicted failures of length <= 2, a sample of the rest
+        keys = sorted(hists)
+        pred = [k for k in keys if any(hists[k][1])]
+        rest = [k for k in keys if not any(hists[k][1])]
+        keep_pred = rng.sample(pred, min(len(pred), 4000))
+        keep = set(keep_pred) | set(rng.sample(rest, min(len(rest), 9000)))
+        hists = {k: hists[k] for k in keys if k in keep}
+    # -- 3. replay on real grids (with crossing faces under both seam positions)
+    pool = []
+    for c in cases:
+        e = c["entry"]
+        if c["sv"] != 1 or e["cut"] != 0 or "~" in e["name"] or len(e["sizes"]) < 2:
+            continue
+        c0, c2 = gen[(c["mi"], 0, 1)], gen[(c["mi"], 2, 1)]
+        if c0["cross"] and c2["cross"] and set(c0["cross"]) != set(c2["cross"]) and len(c0["kept"]) >= 2 and len(c2["kept"]) >= 2:
+            pool.append(e)
+    if len(pool) < 2:
+        raise Machinery("no mixed-size grid with crossers under both seam positions")
+    pool = [pool[0], pool[len(pool) // 2]]
+    X.HIST["entries"] = pool
+    keys = sorted(hists)
+    jobs = [{"id": "h%d" % n, "mesh": n % len(pool), "events": hists[k][0]} for n, k in enumerate(keys)]
+    refs = {}
+    for m, e in enumerate(pool):
+        for k in keys:
+            for ev in hists[k][0]:
+                if ev["act"] != "Edit" and (m, X.ref_key(ev)) not in refs:
+                    refs[(m, X.ref_key(ev))] = X.fresh_reference(e, ev)
+    res = pmap(X.replay_trace, jobs)
+    cls = {}
+
+    def cid(d):
+        return cls.setdefault(d, len(cls) + 1)
+
+    # -- 4. TLC validates the recorded traces against the ideal and explains failures by the observed mechanism
+    verdicts, drift = [], []
+    CH = 30000
+    path = os.path.join(ctx.work, "traces.ndjson")
+    edit_errs = []
+    for a in range(0, len(jobs), CH):
+        with open(path, "w") as fh:
+            for job, tr in zip(jobs[a:a + CH], res[a:a + CH]):
+                steps = []
+                for ev, st in zip(job["events"], tr["steps"]):
+                    if ev["act"] == "Edit":
+                        rx, rg, rc = False, 0, []
+                        if st["err"]:
+                            edit_errs.append((job["id"], st["err"]))
+                    else:
+                        rf = refs[(job["mesh"], X.ref_key(ev))]
+                        rx, rg, rc = rf[0], (cid(rf[1]) if not rf[0] else 0), [[n, cid(d)] for n, d in sorted(rf[2].items())]
+                    steps.append({"ev": ev, "x": st["x"], "rx": rx, "r": st["r"], "rg": rg, "rc": rc,
+                                  "o": [{"g": cid(g), "c": [[n, cid(d)] for n, d in sorted(c.items())]} for g, c in st["o"]]})
+                fh.write(json.dumps({"id": job["id"], "check_drift": True, "steps": steps}) + "\n")
+        jr = ctx.tlc_ok("TracePlot", JUDGE_CFG, what="validate %d recorded histories against the ideal; explain failures by MechObserved" % len(jobs[a:a + CH]),
+                        env={"TRACE_FILE": path}, workers=8, count=False, timeout=3000)
+        if jr.distinct < len(jobs[a:a + CH]):
+            raise Machinery("TracePlot visited %d states for %d traces" % (jr.distinct, len(jobs[a:a + CH])))
+        for v in X.tagged_prints(jr.out, ("V", "D")):
+            (verdicts if v[0] == "V" else drift).append(v)
+    os.remove(path)
+    if edit_errs:
+        raise Machinery("caller edit failed in the harness: %s" % (edit_errs[:2],))
+    ctx.traces += len(jobs)
+    by_id = {j["id"]: j for j in jobs}
+    tr_of = {t["id"]: t for t in res}
+    n_fail = 0
+    for _, tid, q, clause, predicted, knobs in verdicts:
+        job = by_id[tid]
+        ev = job["events"][q - 1]
+        kind = "edit" if ev["act"] == "Edit" else X.kind_of(ev["act"])
+        expl = "+".join(sorted(knobs)) if knobs else ("several" if predicted else "unexplained")
+        n_fail += 1
+        ctx.violation("hist:" + hist_key(job["events"][:q]), clause,
+                      detail={"step": q, "explained_by": expl, "mesh": catalog.eid(pool[job["mesh"]]), "errors": [s["err"] for s in tr_of[tid]["steps"][:q]]},
+                      replay={"mesh": catalog.eid(pool[job["mesh"]]), "events": job["events"][:q], "observed": tr_of[tid]["steps"][:q]},
+                      sig={"part": "history", "kind": kind, "explained_by": expl})
+    for job in jobs:
+        ctx.count(1, hist_key(job["events"]) if len(job["events"]) >= 2 else None)
+    pred_total = sum(1 for k in keys for b in hists[k][1] if b)
+    ctx.note("history", {"alphabet_sizes": n_alpha, "histories_replayed": len(jobs), "steps": sum(len(j["events"]) for j in jobs),
+                         "by_length": {str(n): sum(1 for j in jobs if len(j["events"]) == n) for n in (1, 2, 3, 5)},
+                         "failing_step_clauses": n_fail, "steps_predicted_bad_by_MechObserved": pred_total,
+                         "model_drift_predicted_but_not_observed": len(drift), "meshes": [catalog.eid(e) for e in pool],
+                         "distinct_object_classes": len(cls)})
+    if drift:
+        print("MODEL-DRIFT: %d step/clause pairs predicted by MechObserved were not shown by the code, e.g. %s" % (len(drift), drift[:2]))
+    for job in jobs[:1] + jobs[len(jobs) // 2: len(jobs) // 2 + 1]:
+        ctx.sample({"history": hist_key(job["events"]), "observed": tr_of[job["id"]]["steps"]})
+
+
 def run(ctx):
     rng = random.Random(ctx.seed)
     X.hux.import_ux()
-    part_static(ctx, rng)
+    ents, gen, cases = part_static(ctx, rng)
+    part_history(ctx, rng, ents, gen, cases)
     ctx.rule = "wip"
